@@ -215,6 +215,49 @@ def _box_canon(b):
     return ('Box', _box_canon(b.inner)) if isinstance(b, _Box) else repr(b)
 
 
+def short_lived_classes(chk, thorough):
+    """Classes made at run time come and go (their addresses are reused): whatever the library remembers about a class that
+    is gone must not be applied to a new one.  Plain classes are pickled and dropped, then inconsistently opted-in
+    hierarchies are created - every one of them must still be rejected with a Warning."""
+    import gc
+
+    def make_inconsistent(i):
+        base = type('Bs%d' % i, (), {'__getstate__': lambda self, remote=False: {'r': remote}})
+        return type('Ls%d' % i, (base,), {'__getstate__': lambda self: {'plain': 1}})
+
+    rounds = 12 if thorough else 4
+    accepted = 0
+    made = 0
+    for rd in range(rounds):
+        plain = [type('Ps%d_%d' % (rd, i), (), {}) for i in range(150)]
+        for c in plain:
+            o = c()
+            o.x = 1
+            try:
+                rp.dumps(o)          # the class is looked at (and remembered) by the pickler even though it cannot be
+            except Exception:       # pickled by reference afterwards (it lives in no module)
+                pass
+        del plain, c, o
+        gc.collect()
+        for i in range(60):
+            leaf = make_inconsistent(rd * 100 + i)
+            made += 1
+            try:
+                rp.dumps(leaf())
+                accepted += 1
+            except Warning:
+                pass
+            except BaseException:  # noqa
+                accepted += 1
+        del leaf
+        gc.collect()
+    LOG.clear()
+    chk.case(('short-lived-classes', rounds))
+    chk.count('short_lived_inconsistent_hierarchies', made)
+    if accepted:
+        chk.violation('inconsistent:accepted-after-class-turnover', '%d of %d inconsistently opted-in hierarchies created after other run-time classes had been pickled and dropped were not rejected with a Warning' % (accepted, made), {'accepted': accepted, 'made': made})
+
+
 def nested_loads(chk):
     """loads() called again from inside an object that is being restored (plain classes): same result as pickle."""
     for depth in (1, 2, 3):
@@ -328,6 +371,7 @@ def run(tier):
     late_copyreg(chk, differ)
     concurrent_plain(chk, thorough)
     nested_loads(chk)
+    short_lived_classes(chk, thorough)
 
     # ---- B. generated non-declaring hierarchies + graphs -----------------------
     n_h = 250 if thorough else 60
